@@ -310,7 +310,7 @@ Proof.
   - unfold emit_str, sat_str. destruct o, v; simpl; try rewrite H; simpl;
       eexists; (split; [reflexivity|]); unfold tri_agrees; split; discriminate.
 Qed.
-(* `$in` on metadata[k] is the one leaf form whose emitted condition is wrong (see C20_refuted_in_on_metadata) *)
+(* `$in` on metadata[k] is not a valid filter (C20_in_on_metadata_rejected) *)
 Lemma meta_pair : forall o k v r m, c_metadata r = Some m -> o <> OIn ->
   flt_eval (emit_meta o k v) r = Some (tri_of_bool (sat_meta o k m v)).
 Proof.
@@ -420,9 +420,13 @@ Definition nullable (R : fresource) (k : fkey) : bool :=
   | RTx, KReference | RTx, KRevertedAt | RAcc, KBalance _ | RAcc, KBalanceAny => true
   | _, _ => false
   end.
-(* documented leaf forms: "..." only as last segment of an address pattern; no `$in` on metadata[k] *)
+(* documented leaf forms: "..." only as last segment of an address pattern; full addresses in `$in`; no `$in` on
+   metadata[k] (rejected by validation since the repair, see C20_in_on_metadata_rejected) *)
 Definition leaf_okb (o : fop) (k : fkey) (v : fval) : bool :=
-  (if is_addr_key k then match v with VStr p => pat_ok p | _ => true end else true)
+  (if is_addr_key k then match v with
+                         | VStr p => pat_ok p
+                         | VStrs l => forallb (fun p => negb (is_partial p)) l    (* `$in` takes full addresses only *)
+                         | _ => true end else true)
   && match k, o with KMeta _, OIn => false | _, _ => true end.
 (* bare `balance` on accounts: the scalar sub-select ranges over ALL assets of the account *)
 Definition bare_okb (R : fresource) (k : fkey) (e : fentity) : bool :=
@@ -622,3 +626,198 @@ Qed.
 Theorem count_is_length : forall R pit f es sel,
   flt_list R pit f es = FrOk sel -> flt_count R pit f es = Some (List.length sel).
 Proof. intros R pit f es sel H. unfold flt_count. now rewrite H. Qed.
+
+(* ------------------------------------------------------------------ lateral push-down (repaired code: `$in` arrays are collected)
+   canPush f = true  ->  the dataset pre-filtered by the OR of all address filters lists exactly what the full dataset lists *)
+Lemma collect_addrs_and : forall l, collect_addrs (FAnd l) = flat_map collect_addrs l.
+Proof.
+  unfold collect_addrs. simpl. induction l as [|g l IH]; simpl; [reflexivity|]. now rewrite flat_map_app, IH.
+Qed.
+Lemma collect_addrs_or : forall l, collect_addrs (FOr l) = flat_map collect_addrs l.
+Proof.
+  unfold collect_addrs. simpl. induction l as [|g l IH]; simpl; [reflexivity|]. now rewrite flat_map_app, IH.
+Qed.
+Lemma existsb_flat_map_in {A B} (p : B -> bool) (g : A -> list B) (l : list A) (a : A) :
+  In a l -> existsb p (g a) = true -> existsb p (flat_map g l) = true.
+Proof.
+  intros Hin Hp. induction l as [|x l IH]; simpl; [destruct Hin|]. rewrite existsb_app.
+  destruct Hin as [->|Hin]; [now rewrite Hp|]. rewrite (IH Hin). apply orb_true_r.
+Qed.
+
+Lemma safe_inside_not_no_addr : forall f, safe_lateral true f = true -> contains_addr f = false.
+Proof.
+  induction f as [o k v|l IH|l IH|g IH] using filter_ind'; simpl; intros H.
+  - now apply negb_true_iff in H.
+  - rewrite Forall_forall in IH. rewrite forallb_forall in H.
+    destruct (existsb contains_addr l) eqn:E; [|reflexivity].
+    apply existsb_exists in E. destruct E as [g [Hg Hc]]. rewrite (IH g Hg (H g Hg)) in Hc. discriminate.
+  - rewrite forallb_forall in H. destruct (existsb contains_addr l) eqn:E; [|reflexivity].
+    apply existsb_exists in E. destruct E as [g [Hg Hc]]. specialize (H g Hg). rewrite Hc in H. discriminate.
+  - now apply IH.
+Qed.
+
+Definition ent_address (e : fentity) : option string :=
+  match e with EVol v => Some (fv_account v) | EAcc a => Some (fa_address a) | _ => None end.
+
+Lemma sat_addr_covered : forall o k v a,
+  leaf_okb o k v = true -> json_addr_key k = true -> sat_addr o [a] v = true ->
+  existsb (fun p => addr_match p a)
+    (match v with VStr s => [s] | VStrs l => l | _ => [] end) = true.
+Proof.
+  intros o k v a Hok Hk Hs. unfold leaf_okb in Hok. apply andb_true_iff in Hok. destruct Hok as [Hok _].
+  assert (Hak : is_addr_key k = true) by (destruct k; try discriminate Hk; reflexivity). rewrite Hak in Hok.
+  unfold sat_addr in Hs. destruct o, v; try discriminate Hs; simpl in *.
+  - now rewrite orb_false_r in *.
+  - now rewrite orb_false_r in *.
+  - rewrite orb_false_r in Hs. unfold smem in Hs. apply existsb_exists in Hs. destruct Hs as [p [Hp Heq]].
+    apply existsb_exists. exists p. split; [exact Hp|]. rewrite forallb_forall in Hok. specialize (Hok p Hp).
+    apply negb_true_iff in Hok. unfold addr_match. rewrite Hok. now rewrite String.eqb_sym.
+Qed.
+
+Lemma pushdown_covers : forall R x f, (R = RVol \/ R = RAgg) ->
+  pos_f R (EVol x) f = true -> safe_lateral false f = true -> contains_addr f = true ->
+  flt_sat R f (EVol x) = true ->
+  existsb (fun p => addr_match p (fv_account x)) (collect_addrs f) = true.
+Proof.
+  intros R x f HR. induction f as [o k v|l IH|l IH|g IH] using filter_ind'; intros Hpos Hsafe Hc Hsat.
+  - simpl in Hpos. apply andb_true_iff in Hpos. destruct Hpos as [Hok _]. simpl in Hc.
+    unfold collect_addrs. simpl. rewrite app_nil_r.
+    assert (Hs : sat_addr o [fv_account x] v = true).
+    { destruct HR as [-> | ->]; simpl in Hsat; destruct k; try discriminate Hc; simpl in Hsat; first [exact Hsat|discriminate Hsat]. }
+    pose proof (sat_addr_covered o k v (fv_account x) Hok Hc Hs) as Hcov.
+    destruct v; rewrite ?Hc; try exact Hcov; simpl in Hcov; discriminate Hcov.
+  - rewrite collect_addrs_and. simpl in *. rewrite Forall_forall in IH. rewrite forallb_forall in Hpos, Hsafe, Hsat.
+    apply existsb_exists in Hc. destruct Hc as [g [Hg Hcg]].
+    exact (existsb_flat_map_in _ _ l g Hg (IH g Hg (Hpos g Hg) (Hsafe g Hg) Hcg (Hsat g Hg))).
+  - rewrite collect_addrs_or. simpl in Hpos, Hsafe, Hc, Hsat. rewrite Forall_forall in IH.
+    apply andb_true_iff in Hpos. destruct Hpos as [_ Hpos]. apply andb_true_iff in Hsafe. destruct Hsafe as [Hmix Hsafe].
+    rewrite forallb_forall in Hpos, Hsafe. apply existsb_exists in Hsat. destruct Hsat as [g [Hg Hsg]].
+    assert (Hcg : contains_addr g = true).
+    { destruct l as [|g0 [|g1 l']].
+      - destruct Hg.
+      - destruct Hg as [<-|[]]. simpl in Hc. now rewrite orb_false_r in Hc.
+      - change (Nat.ltb 1 (List.length (g0 :: g1 :: l'))) with true in Hmix. cbv iota in Hmix.
+        apply negb_true_iff in Hmix. rewrite Hc in Hmix. rewrite andb_true_l in Hmix.
+        destruct (contains_addr g) eqn:E; [reflexivity|]. exfalso.
+        assert (X : existsb (fun g2 => negb (contains_addr g2)) (g0 :: g1 :: l') = true)
+          by (apply existsb_exists; exists g; split; [exact Hg|now rewrite E]).
+        rewrite X in Hmix. discriminate. }
+    exact (existsb_flat_map_in _ _ l g Hg (IH g Hg (Hpos g Hg) (Hsafe g Hg) Hcg Hsg)).
+  - simpl in Hsafe, Hc. rewrite (safe_inside_not_no_addr g Hsafe) in Hc. discriminate.
+Qed.
+
+Lemma no_addr_no_collect : forall f, contains_addr f = false -> collect_addrs f = [].
+Proof.
+  induction f as [o k v|l IH|l IH|g IH] using filter_ind'; intros H.
+  - unfold collect_addrs. simpl in *. rewrite H. destruct v; reflexivity.
+  - rewrite collect_addrs_and. simpl in H. rewrite Forall_forall in IH.
+    induction l as [|g l IHl]; simpl; [reflexivity|]. simpl in H. apply orb_false_iff in H. destruct H as [H1 H2].
+    rewrite (IH g (or_introl eq_refl) H1). simpl. apply IHl; [intros y Hy; apply IH; now right|exact H2].
+  - rewrite collect_addrs_or. simpl in H. rewrite Forall_forall in IH.
+    induction l as [|g l IHl]; simpl; [reflexivity|]. simpl in H. apply orb_false_iff in H. destruct H as [H1 H2].
+    rewrite (IH g (or_introl eq_refl) H1). simpl. apply IHl; [intros y Hy; apply IH; now right|exact H2].
+  - unfold collect_addrs in *. simpl in *. now apply IH.
+Qed.
+
+(* every collected address is either a well-formed pattern or a full address *)
+Definition addr_ok (p : string) : bool := pat_ok p || negb (is_partial p).
+Lemma addr_cond_eval' : forall p a r,
+  c_address r = Some a -> c_address_array r = Some (segs a) -> addr_ok p = true ->
+  flt_eval (addr_cond p) r = Some (tri_of_bool (addr_match p a)).
+Proof.
+  intros p a r Ha Harr Hok. destruct (pat_ok p) eqn:Hp; [now apply addr_cond_eval|].
+  unfold addr_ok in Hok. rewrite Hp in Hok. simpl in Hok. apply negb_true_iff in Hok.
+  unfold addr_cond, addr_match. rewrite Hok. simpl. rewrite Ha. simpl. now rewrite String.eqb_sym.
+Qed.
+Lemma leaf_collect_ok : forall o k v, leaf_okb o k v = true ->
+  forall p, In p (collect_addrs (FLeaf o k v)) -> addr_ok p = true.
+Proof.
+  intros o k v Hok p Hp. unfold leaf_okb in Hok. apply andb_true_iff in Hok. destruct Hok as [Hok _].
+  unfold collect_addrs in Hp. simpl in Hp. rewrite app_nil_r in Hp.
+  destruct (json_addr_key k) eqn:Hk.
+  2:{ destruct v; destruct Hp. }
+  assert (Hak : is_addr_key k = true) by (destruct k; try discriminate Hk; reflexivity). rewrite Hak in Hok.
+  unfold addr_ok. destruct v; try destruct Hp.
+  - subst p. now rewrite Hok.
+  - destruct H.
+  - rewrite forallb_forall in Hok. rewrite (Hok p Hp). apply orb_true_r.
+Qed.
+Lemma strict_collect_ok : forall R f, strict_f R f = true -> forall p, In p (collect_addrs f) -> addr_ok p = true.
+Proof.
+  intros R. induction f as [o k v|l IH|l IH|g IH] using filter_ind'; intros Hs p Hp.
+  - simpl in Hs. apply andb_true_iff in Hs. destruct Hs as [Hok _]. exact (leaf_collect_ok o k v Hok p Hp).
+  - rewrite collect_addrs_and in Hp. apply in_flat_map in Hp. destruct Hp as [g [Hg Hp]].
+    simpl in Hs. rewrite forallb_forall in Hs. rewrite Forall_forall in IH. exact (IH g Hg (Hs g Hg) p Hp).
+  - rewrite collect_addrs_or in Hp. apply in_flat_map in Hp. destruct Hp as [g [Hg Hp]].
+    simpl in Hs. apply andb_true_iff in Hs. destruct Hs as [_ Hs]. rewrite forallb_forall in Hs. rewrite Forall_forall in IH.
+    exact (IH g Hg (Hs g Hg) p Hp).
+  - simpl in Hs. apply IH; [exact Hs|exact Hp].
+Qed.
+Lemma pos_collect_ok : forall R e f, pos_f R e f = true -> forall p, In p (collect_addrs f) -> addr_ok p = true.
+Proof.
+  intros R e. induction f as [o k v|l IH|l IH|g IH] using filter_ind'; intros Hs p Hp.
+  - simpl in Hs. apply andb_true_iff in Hs. destruct Hs as [Hok _]. exact (leaf_collect_ok o k v Hok p Hp).
+  - rewrite collect_addrs_and in Hp. apply in_flat_map in Hp. destruct Hp as [g [Hg Hp]].
+    simpl in Hs. rewrite forallb_forall in Hs. rewrite Forall_forall in IH. exact (IH g Hg (Hs g Hg) p Hp).
+  - rewrite collect_addrs_or in Hp. apply in_flat_map in Hp. destruct Hp as [g [Hg Hp]].
+    simpl in Hs. apply andb_true_iff in Hs. destruct Hs as [_ Hs]. rewrite forallb_forall in Hs. rewrite Forall_forall in IH.
+    exact (IH g Hg (Hs g Hg) p Hp).
+  - simpl in Hs. exact (strict_collect_ok R g Hs p Hp).
+Qed.
+
+Lemma prefilter_eval : forall addrs x,
+  (forall p, In p addrs -> addr_ok p = true) ->
+  flt_eval (COr false (map addr_cond addrs)) (row_of (EVol x))
+  = Some (tri_of_bool (existsb (fun p => addr_match p (fv_account x)) addrs)).
+Proof.
+  intros addrs x H.
+  exact (eval_or_strict_map (fun c => flt_eval c (row_of (EVol x))) addr_cond (fun p => addr_match p (fv_account x)) addrs false
+           (fun p Hp => addr_cond_eval' p (fv_account x) (row_of (EVol x)) eq_refl eq_refl (H p Hp))).
+Qed.
+
+Lemma prefilter_shape : forall R pit f addrs, flt_prefilter R pit f = Some addrs ->
+  (R = RVol \/ R = RAgg) /\ addrs = collect_addrs f /\ safe_lateral false f = true /\ addrs <> [].
+Proof.
+  intros R pit f addrs H. unfold flt_prefilter in H.
+  assert (Hne : forall l : list string, existsb is_partial l = true -> l <> []) by (intros [|? ?] E; [discriminate E|discriminate]).
+  destruct R; try discriminate H.
+  - destruct (existsb is_partial (collect_addrs f)) eqn:E1; simpl in H; [|discriminate].
+    destruct (safe_lateral false f) eqn:E2; inversion H; subst. repeat split; auto.
+  - destruct pit.
+    + destruct (existsb is_partial (collect_addrs f)) eqn:E1; simpl in H; [|discriminate].
+      destruct (safe_lateral false f) eqn:E2; inversion H; subst. repeat split; auto.
+    + destruct (safe_lateral false f) eqn:E2; [|rewrite andb_false_r in H; simpl in H; discriminate].
+      destruct (collect_addrs f) as [|a0 l0] eqn:E3; [rewrite andb_false_r in H; discriminate|].
+      destruct ((uses_key is_meta_key f || existsb is_partial (a0 :: l0)) && uses_key (fun k => match k with KAddress => true | _ => false end) f);
+        simpl in H; inversion H; subst. repeat split; auto. discriminate.
+Qed.
+
+Lemma filter_filter_implied {A} (s pre : A -> bool) (l : list A) :
+  (forall a, In a l -> s a = true -> pre a = true) -> List.filter s (List.filter pre l) = List.filter s l.
+Proof.
+  intros H. induction l as [|a l IH]; simpl; [reflexivity|].
+  assert (IH' := IH (fun a' Ha => H a' (or_intror Ha))).
+  destruct (pre a) eqn:Ep; simpl.
+  - now rewrite IH'.
+  - destruct (s a) eqn:Es; [rewrite (H a (or_introl eq_refl) Es) in Ep; discriminate|exact IH'].
+Qed.
+
+(* list = exactly the matching entities, push-down or not *)
+Theorem list_sound_pushdown : forall R pit f es,
+  flt_validate R f = FvOk ->
+  (forall e, In e es -> ent_kind R e = true /\ wf_entity e /\ pos_f R e f = true) ->
+  flt_list R pit f es = FrOk (flt_ref R f es).
+Proof.
+  intros R pit f es Hv H. destruct (flt_prefilter R pit f) as [addrs|] eqn:Hp; [|now apply list_sound].
+  destruct (prefilter_shape R pit f addrs Hp) as [HR [-> [Hsafe Hne]]].
+  assert (Hc : contains_addr f = true).
+  { destruct (contains_addr f) eqn:E; [reflexivity|]. now rewrite (no_addr_no_collect f E) in Hne. }
+  unfold flt_list, flt_dataset, flt_ref. rewrite Hv, Hp.
+  set (pre := fun e : fentity => match flt_eval (COr false (map addr_cond (collect_addrs f))) (row_of e) with Some TTrue => true | _ => false end).
+  rewrite (select_rows_sound (flt_emit R f) (flt_sat R f) (List.filter pre es)).
+  2:{ intros e He. apply filter_In in He. destruct He as [He _]. destruct (H e He) as [Hk [Hwf Hpos]]. now apply emit_pos. }
+  f_equal. apply filter_filter_implied. intros e He Hs. destruct (H e He) as [Hk [_ Hpos]].
+  assert (exists x, e = EVol x) as [x ->] by (destruct HR as [-> | ->]; destruct e; try discriminate Hk; eauto).
+  unfold pre. rewrite (prefilter_eval (collect_addrs f) x (pos_collect_ok R (EVol x) f Hpos)).
+  now rewrite (pushdown_covers R x f HR Hpos Hsafe Hc Hs).
+Qed.
